@@ -38,6 +38,11 @@ Proof. induction n; destruct l; simpl; intros; auto.
   - destruct H; auto.
   - destruct H; auto. apply IHn in H. tauto. Qed.
 
+Lemma NoDup_app_intro : forall A (l1 l2 : list A), NoDup l1 -> NoDup l2 -> (forall x, In x l1 -> In x l2 -> False) -> NoDup (l1 ++ l2).
+Proof. induction l1; simpl; intros; auto. inversion H; subst. constructor.
+  - intro Hin. apply in_app_or in Hin. destruct Hin; auto. eapply H1; eauto.
+  - apply IHl1; auto. intros. eapply H1; eauto. Qed.
+
 (* sums *)
 Fixpoint sumf {A} (f : A -> nat) (l : list A) : nat := match l with [] => 0 | x :: r => f x + sumf f r end.
 Lemma sumf_app : forall A (f : A -> nat) l1 l2, sumf f (l1 ++ l2) = sumf f l1 + sumf f l2.
